@@ -14,6 +14,7 @@ from labrea import Option, Value, pipeline_step
 from labrea.pipeline import Pipeline, PipelineStep
 from labrea.types import Evaluatable
 
+from .. import universe as U
 from ..cases import case_rng
 from ..gen import spec_hash
 from ..outcome import canon, observe, short
@@ -33,7 +34,7 @@ RULE = (
 )
 ASSUMPTIONS = ["helper parameters annotated Any (eq/ne/gt/ge/lt/le value, call_method args) are exercised as constants only"]
 FLOORS = {"bracketings_compared": (1500, 30000), "identity_checks": (400, 8000), "split_checks": (1500, 30000), "rshift_checks": (400, 8000),
-          "param_key_checks": (400, 8000), "reuse_checks": (300, 6000), "helper_cases": (247, 247), "helper_cases_with_option_argument": (144, 144), "helpers_covered": (60, 60), "helper_reapplications": (238, 238), "pipeline_history_steps": (3000, 60000), "stateful_step_evaluations": (36, 36)}
+          "param_key_checks": (400, 8000), "reuse_checks": (300, 6000), "helper_cases": (247, 247), "helper_cases_with_option_argument": (144, 144), "helpers_covered": (60, 60), "helper_reapplications": (238, 238), "pipeline_history_steps": (3000, 60000), "stateful_step_evaluations": (36, 36), "templated_parameter_checks": (150, 3000)}
 SHARDS_QUICK = 2
 
 
@@ -151,9 +152,13 @@ def algebra_case(ctx, names, o, x, all_brackets=True):
     table = make_steps()
     W = {"steps": names, "options": o, "input": repr(x)}
 
+    # option values may be templated strings (chains of references included): the plain computation works on the
+    # dictionary with every reference resolved, independently of the library
+    resolved = U.substitute(o, o) if U.contains_template({k: v for k, v in o.items() if isinstance(v, (str, list, dict))}) else o
+
     def py(seq, xx):
         for n in seq:
-            xx = table[n][1](xx, o)
+            xx = table[n][1](xx, resolved)
         return xx
 
     try:
@@ -231,6 +236,13 @@ def algebra_case(ctx, names, o, x, all_brackets=True):
     # parameters are keyed
     need = set().union(*[table[n][2] for n in names]) if names else set()
     present = {k for k in need if _present(k, o)}
+    for k in sorted(present):
+        # ... and so is every option a present parameter's value refers to, transitively
+        reads = set()
+        U.substitute(U.lookup(k, o), o, reads)
+        if reads:
+            ctx.count("templated_parameter_checks")
+        present |= reads
     ks = observe(pipe.keys, copy.deepcopy(o))
     ex = observe(pipe.explain, copy.deepcopy(o))
     ctx.count("param_key_checks")
@@ -473,7 +485,10 @@ def helpers(ctx):
 
 
 STEP_NAMES = ["s_add", "s_two", "plain", "helper", "nested", "empty", "tuple", "raw_partial", "opt_callable"]
-OPTIONS = [{"Q": "q"}, {"AMOUNT": 5, "Q": 0, "S": {"P": 7}, "H": ("hh",), "K": 9}, {"AMOUNT": None, "S": {"P": "sp"}, "FN": _alt_fn}, {}, {"Q": 1, "K": "k", "FN": _alt_fn}]
+OPTIONS = [{"Q": "q"}, {"AMOUNT": 5, "Q": 0, "S": {"P": 7}, "H": ("hh",), "K": 9}, {"AMOUNT": None, "S": {"P": "sp"}, "FN": _alt_fn}, {}, {"Q": 1, "K": "k", "FN": _alt_fn},
+           # parameter values that are references to other options, two and three levels deep, through sections and lists
+           {"AMOUNT": "{BASE1}", "BASE1": "{BASE2}", "BASE2": 3, "Q": "{S.P}", "S": {"P": "{BASE2}"}, "K": "{BASE1}"},
+           {"AMOUNT": ["{BASE1}", 1], "BASE1": "{CFG.SCALE}", "CFG": {"SCALE": "{BASE2}x"}, "BASE2": "b2", "Q": "q{AMOUNT.1}"}]
 
 
 class _Acc:
